@@ -131,7 +131,8 @@ def gen(tier, rng, harness=None):
                    (0x7FEFFFFFFFFFFFFF, 0x7C90000000000000), (0xFFEFFFFFFFFFFFFF, 0xFC90000000000000), (0x7FEFFFFFFFFFFFFF, 0x7C8FFFFFFFFFFFFF), (0xFFEFFFFFFFFFFFFF, 0xFC8FFFFFFFFFFFFF)):
         lines.append("!flt.rt ppc_fp128 %016X%016X" % (hi, lo))
     # the recorded finding C10-ppc-fp128-pair-recanonicalised: a low double of -0, and a pair whose high double is not the double nearest to the sum
-    lines += ["!flt.rt ppc_fp128 3FF00000000000008000000000000000", "!flt.rt ppc_fp128 3FF00000000000003FF0000000000000", "!flt.rt ppc_fp128 7FF0000000000000FFF0000000000000"]
+    lines += ["!flt.rt ppc_fp128 3FF00000000000008000000000000000", "!flt.rt ppc_fp128 3FF00000000000003FF0000000000000", "!flt.rt ppc_fp128 7FF0000000000000FFF0000000000000",
+              "!flt.rt ppc_fp128 80000000000000008000000000000000"]
     # values that need EVERY significand bit (odd p-bit integers scaled by small powers of two) and are still printed in decimal notation: the reader of
     # decimal literals must round at exactly p bits (half 11, float 24, double 53)
     import struct
